@@ -486,7 +486,10 @@ type PutObjectInput struct {
 	ChecksumAlgorithm         types.ChecksumAlgorithm
 
 	Metadata map[string]string
-	Body     io.Reader
+	// Tags is an already parsed tag set (CopyObject passes the source
+	// object's tags); when not nil it takes the place of Tagging
+	Tags map[string]string
+	Body io.Reader
 }
 
 type CreateMultipartUploadInput struct {
